@@ -33,10 +33,10 @@ CHECKS = {
             'Trusted: the hand composition in pbt/props/c10.py; library primitives are checked by C03-C08, C12.',
             'DESIGN.md section 4, C10'),
     'C11': ('fault_enumeration',
-            'exhaustive assignment of documented row-fault kinds to tables of 1-2 rows (samples: 13 kinds, beads: '
+            'exhaustive assignment of documented row-fault kinds to tables of 1-2 rows (samples: 16 kinds, beads: '
             '6 kinds) + Hypothesis for 3-5 rows; oracle: row-level error for each faulty row, healthy row == its '
             'single-row run, order, notes, histogram skips',
-            'All 183 sample tables and 43 bead tables of <=2 rows over the documented fault kinds, plus sampled '
+            'All 273 sample tables and 43 bead tables of <=2 rows over the documented fault kinds, plus sampled '
             'tables of 3..5 rows, must return (no abort), record an ExcelUIException for exactly the faulty rows, '
             'give every healthy cell-sample row the public fingerprint of its single-row run, keep table order, '
             "write 'ERROR:' notes with empty statistics for faulty rows only, and skip them in the histogram table.",
